@@ -25,7 +25,80 @@ func callerArgs(p *ssa.Parameter) []ssa.Value {
 			out = append(out, site.Common().Args[idx])
 		}
 	}
+	// the receiver of a method used as a bound function value (x.settled passed as a callback) is x
+	if idx == 0 && p.Parent().Signature.Recv() != nil {
+		for _, mc := range theProg.BoundSites(p.Parent()) {
+			out = append(out, mc.Bindings[0])
+		}
+	}
 	return out
+}
+
+// literalField: v is a load of field f of a struct literal (seen through single-caller parameters and bound
+// receivers) that is written exactly once, in that literal: returns the value stored there.
+func literalField(v ssa.Value, budget int) (ssa.Value, bool) {
+	ld, ok := v.(*ssa.UnOp)
+	if !ok || ld.Op != token.MUL {
+		return nil, false
+	}
+	fa, ok := ld.X.(*ssa.FieldAddr)
+	if !ok {
+		return nil, false
+	}
+	al, ok := deepStripN(fa.X, budget-1).(*ssa.Alloc)
+	if !ok || al.Referrers() == nil {
+		return nil, false
+	}
+	if _, isStruct := derefT(al.Type()).Underlying().(*types.Struct); !isStruct {
+		return nil, false
+	}
+	var val ssa.Value
+	n := 0
+	for _, r := range *al.Referrers() {
+		fa2, ok := r.(*ssa.FieldAddr)
+		if !ok || fa2.Field != fa.Field || fa2.Referrers() == nil {
+			continue
+		}
+		for _, rr := range *fa2.Referrers() {
+			if st, ok := rr.(*ssa.Store); ok && st.Addr == ssa.Value(fa2) {
+				val = st.Val
+				n++
+			}
+		}
+	}
+	if n != 1 || fieldWrittenElsewhere(fa, al) {
+		return nil, false
+	}
+	return val, true
+}
+
+// fieldWrittenElsewhere: some store of the module writes that field of that struct type other than through the literal al itself.
+func fieldWrittenElsewhere(fa *ssa.FieldAddr, al *ssa.Alloc) bool {
+	if theProg == nil {
+		return true
+	}
+	st := derefT(fa.X.Type())
+	for _, f := range theProg.ModFuncs() {
+		for _, b := range f.Blocks {
+			for _, in := range b.Instrs {
+				s, ok := in.(*ssa.Store)
+				if !ok {
+					continue
+				}
+				fa2, ok := s.Addr.(*ssa.FieldAddr)
+				if !ok || fa2.Field != fa.Field || !types.Identical(derefT(fa2.X.Type()), st) {
+					continue
+				}
+				if fa2.X != ssa.Value(al) {
+					// another literal of the same type is fine: it is another object; a store through anything else is not
+					if _, lit := fa2.X.(*ssa.Alloc); !lit {
+						return true
+					}
+				}
+			}
+		}
+	}
+	return false
 }
 
 // deepStrip is core.Strip that also follows a parameter of a function with exactly one static call site to the argument passed there (helpers extracted from a single caller).
@@ -34,6 +107,10 @@ func deepStrip(v ssa.Value) ssa.Value { return deepStripN(v, 12) }
 func deepStripN(v ssa.Value, budget int) ssa.Value {
 	for ; budget > 0; budget-- {
 		v = core.Strip(v)
+		if fv, ok := literalField(v, budget); ok {
+			v = fv
+			continue
+		}
 		p, ok := v.(*ssa.Parameter)
 		if !ok {
 			return v
@@ -593,4 +670,111 @@ func loopCarriedCell(al *ssa.Alloc, l *core.Loop, at ssa.Instruction) bool {
 		return false
 	}
 	return reach(l.Header)
+}
+
+// sliceSources lists what a slice value holds when it is built, in its own function, only from make / nil and appends
+// of explicit elements: the values appended, for each of them the append that adds it, and the appends. ok is false when the slice has any other source.
+func sliceSources(s ssa.Value) (elems []ssa.Value, from []*ssa.Call, apps []*ssa.Call, ok bool) {
+	seen := map[ssa.Value]bool{}
+	var walk func(s ssa.Value) bool
+	walk = func(s ssa.Value) bool {
+		if s == nil || seen[s] {
+			return true
+		}
+		seen[s] = true
+		switch x := s.(type) {
+		case *ssa.Phi:
+			for _, e := range x.Edges {
+				if !walk(e) {
+					return false
+				}
+			}
+			return true
+		case *ssa.Slice:
+			return walk(x.X)
+		case *ssa.MakeSlice:
+			return true
+		case *ssa.Const:
+			return x.IsNil()
+		case *ssa.ChangeType:
+			return walk(x.X)
+		case *ssa.UnOp:
+			// a local cell holding the slice
+			if x.Op == token.MUL {
+				if cell := cellOf(x.X); cell != nil {
+					for _, st := range allStoresTo(cell) {
+						if !walk(st.Val) {
+							return false
+						}
+					}
+					return true
+				}
+			}
+			return false
+		case *ssa.Call:
+			if core.CallOf(x).Builtin() != "append" || len(x.Call.Args) != 2 {
+				return false
+			}
+			// the appended elements: append(s, e) is append(s, new [1]T{e}[:])
+			sl, isSlice := x.Call.Args[1].(*ssa.Slice)
+			if !isSlice {
+				return false
+			}
+			arr, isAlloc := sl.X.(*ssa.Alloc)
+			if !isAlloc || arr.Referrers() == nil {
+				return false
+			}
+			for _, r := range *arr.Referrers() {
+				if eia, isIA := r.(*ssa.IndexAddr); isIA && eia.Referrers() != nil {
+					for _, rr := range *eia.Referrers() {
+						if st, isSt := rr.(*ssa.Store); isSt && st.Addr == ssa.Value(eia) {
+							elems = append(elems, st.Val)
+							from = append(from, x)
+						}
+					}
+				}
+			}
+			apps = append(apps, x)
+			return walk(x.Call.Args[0])
+		}
+		return false
+	}
+	if !walk(s) {
+		return nil, nil, nil, false
+	}
+	return elems, from, apps, true
+}
+
+// collectedElem resolves v, an element read from a slice that its function accumulates beforehand with append
+// (wills = append(wills, w) in a first loop; for i := range wills { use(wills[i]) } in a second one), to the one
+// value appended and the append that adds it. ok is false when v is not such an element, when the slice has any other
+// source than make / nil / appends, or when it is not fed by exactly one append of one element.
+func collectedElem(v ssa.Value) (elem ssa.Value, at *ssa.Call, ok bool) {
+	ld, isLoad := core.Strip(v).(*ssa.UnOp)
+	if !isLoad || ld.Op != token.MUL {
+		return nil, nil, false
+	}
+	ia, isIdx := ld.X.(*ssa.IndexAddr)
+	if !isIdx {
+		return nil, nil, false
+	}
+	elems, _, apps, ok := sliceSources(ia.X)
+	if !ok || len(apps) != 1 || len(elems) != 1 {
+		return nil, nil, false
+	}
+	return elems[0], apps[0], true
+}
+
+// everyIteration: instruction in runs on each iteration of its innermost loop (its block dominates every back edge).
+func everyIteration(in ssa.Instruction) bool {
+	l := core.InnermostLoop(core.Loops(in.Parent()), in.Block())
+	if l == nil {
+		return false
+	}
+	for _, pr := range l.Header.Preds {
+		if l.Blocks[pr] && !in.Block().Dominates(pr) {
+			return false
+		}
+	}
+	return true
 }
